@@ -266,6 +266,111 @@ pub fn view<R: ReadDoc>(doc: &R, heads: Option<&[ChangeHash]>) -> J {
     J::Array(out.into_values().collect())
 }
 
+/// C07 / C29 / C02: `hydrate` and `parents` against the other reads.  The image of the document built from keys / get /
+/// length / text (at `heads`, or through the reader's own scope) must equal hydrate(ROOT, heads), and the parents()
+/// path of every reachable object must lead back to the root through the registers it was reached by.
+/// Returns "" or a description of the first disagreement.
+pub fn hydrate_parents_disagree<R: ReadDoc>(doc: &R, heads: Option<&[ChangeHash]>) -> String {
+    fn img<R: ReadDoc>(doc: &R, obj: &ObjId, ty: ObjType, heads: Option<&[ChangeHash]>, objs: &mut Vec<(ObjId, ObjId, automerge::Prop)>, depth: usize) -> J {
+        if depth > 12 {
+            return json!({"t":"deep"});
+        }
+        let val = |doc: &R, v: Value<'_>, id: ObjId, parent: &ObjId, prop: automerge::Prop, objs: &mut Vec<(ObjId, ObjId, automerge::Prop)>| -> J {
+            match v {
+                Value::Object(t) => {
+                    objs.push((id.clone(), parent.clone(), prop));
+                    img(doc, &id, t, heads, objs, depth + 1)
+                }
+                Value::Scalar(s) => json!({"t":"scalar","v": enc::scalar(s.as_ref())}),
+            }
+        };
+        match ty {
+            ObjType::Map | ObjType::Table => {
+                let keys: Vec<String> = match heads {
+                    Some(h) => doc.keys_at(obj, h).collect(),
+                    None => doc.keys(obj).collect(),
+                };
+                let mut ents = vec![];
+                for k in keys {
+                    let g = match heads {
+                        Some(h) => doc.get_at(obj, k.as_str(), h),
+                        None => doc.get(obj, k.as_str()),
+                    };
+                    if let Ok(Some((v, id))) = g {
+                        ents.push(json!({"k": k, "v": val(doc, v, id, obj, automerge::Prop::Map(k.clone()), objs)}));
+                    }
+                }
+                json!({"t":"map","ents":ents})
+            }
+            ObjType::List => {
+                let n = match heads {
+                    Some(h) => doc.length_at(obj, h),
+                    None => doc.length(obj),
+                };
+                let mut items = vec![];
+                for i in 0..n {
+                    let g = match heads {
+                        Some(h) => doc.get_at(obj, i, h),
+                        None => doc.get(obj, i),
+                    };
+                    if let Ok(Some((v, id))) = g {
+                        items.push(val(doc, v, id, obj, automerge::Prop::Seq(i), objs));
+                    }
+                }
+                json!({"t":"seq","items":items})
+            }
+            ObjType::Text => {
+                let t = match heads {
+                    Some(h) => doc.text_at(obj, h),
+                    None => doc.text(obj),
+                };
+                json!({"t":"text","toks": enc::str_tokens(&t.unwrap_or_default())})
+            }
+        }
+    }
+    fn has_block(j: &J) -> bool {
+        match j["t"].as_str() {
+            Some("text") => j["toks"].as_array().map(|a| a.iter().any(|t| t == "objrepl")).unwrap_or(false),
+            Some("map") => j["ents"].as_array().map(|a| a.iter().any(|e| has_block(&e["v"]))).unwrap_or(false),
+            Some("seq") => j["items"].as_array().map(|a| a.iter().any(has_block)).unwrap_or(false),
+            _ => false,
+        }
+    }
+    let mut objs: Vec<(ObjId, ObjId, automerge::Prop)> = vec![];
+    let want = img(doc, &ObjId::Root, ObjType::Map, heads, &mut objs, 0);
+    match doc.hydrate(ObjId::Root, heads) {
+        Ok(h) => {
+            let got = crate::calls::tagged_from_hydrate(&h);
+            // (texts holding block markers hydrate to a richer form: not compared)
+            if got != want && !has_block(&want) {
+                return format!("hydrate(ROOT) {} / image of get-keys-length-text reads {}", got.to_string().chars().take(300).collect::<String>(), want.to_string().chars().take(300).collect::<String>());
+            }
+        }
+        Err(e) => return format!("hydrate(ROOT) failed: {:?}", e),
+    }
+    // parents: the first step of the path of every reached object is the register it was reached by
+    for (id, parent, prop) in objs.iter().take(40) {
+        let ps = match heads {
+            Some(h) => doc.parents_at(id, h),
+            None => doc.parents(id),
+        };
+        match ps {
+            Ok(mut it) => match it.next() {
+                Some(p) => {
+                    // (in a text the index is counted in the text encoding's units; only the parent object is compared there)
+                    let same_prop = p.prop == *prop || matches!(prop, automerge::Prop::Seq(_));
+                    if p.obj != *parent || !same_prop || !p.visible {
+                        return format!("parents({}) starts with ({}, {:?}, visible {}) but the object was reached through ({}, {:?})", id, p.obj, p.prop, p.visible, parent, prop);
+                    }
+                }
+                None => return format!("parents({}) is empty but the object was reached through ({}, {:?})", id, parent, prop),
+            },
+            Err(e) => return format!("parents({}) failed: {:?}", id, e),
+        }
+    }
+    String::new()
+}
+
 /// C29 / C02: compare the iterator reads of every reachable object (map_range, list_range, values,
 /// keys, length) with get / get_all.  Returns a description of the first disagreement.
 pub fn iter_reads_disagree<R: ReadDoc>(doc: &R) -> Option<String> {
